@@ -6,7 +6,7 @@ from checks import tree_common
 
 
 def run(ctx):
-    tree_common.run(ctx, "C13", {"track:sem", "collect"}, 48, 400)
+    tree_common.run(ctx, "C13", {"track:sem", "collect", "vanish"}, 48, 400)
 
 
 if __name__ == "__main__":
